@@ -70,6 +70,10 @@ def run_checks(repo, outdir, pids, tier="quick", seed="1"):
                            stdout=subprocess.PIPE, stderr=subprocess.STDOUT, env=env)
         out = r.stdout.decode()
         viol = [l for l in out.splitlines() if l.startswith("VIOLATION") or l.startswith("  bucket")]
+        if r.returncode == 2:
+            # keep the whole output of a harness error for inspection
+            with open("/var/tmp/harness_error_%s_%d.log" % (pid, int(time.time() * 1000)), "w") as f:
+                f.write(out)
         res[pid] = {"rc": r.returncode, "wall": round(time.time() - t0, 1), "lines": viol[:8],
                     "tail": out.splitlines()[-3:] if r.returncode == 2 else []}
     return res
